@@ -271,7 +271,10 @@ def clenshaw_qbfs_der(cs, usq, j=1, alphas=None):
     # seed with j=0 (S, not its derivative)
     clenshaw_qbfs(cs, usq, alphas[0])
     for jj in range(1, j+1):
-        alphas[jj][M-j] = -4 * jj * alphas[jj-1][M-jj+1]
+        # alpha_M^j = 0 for j >= 1, so the recurrence below starts from
+        # alpha_(M-1)^j = -4 j alpha_M^(j-1); a single-term sum has no such row
+        if M > 0:
+            alphas[jj][M-1] = -4 * jj * alphas[jj-1][M]
         for n in range(M-2, -1, -1):
             # this is hideous, and just expresses:
             # for the jth derivative, alpha_n is 2 - 4x * a_n+1 - a_n+2 - 4 j a_n+1^j-1
